@@ -469,6 +469,12 @@ def run_check(prop, tier, seed):
         if model_ok:
             raise
         corr_error = str(e)
+    except Exception as e:  # noqa
+        # the generators of a property may lean on its own extractor: when the source no longer has the shape the
+        # extractor expects (translation already recorded as broken) a crash here is a consequence, not a harness bug
+        if model_ok and not my_broken:
+            raise
+        corr_error = 'case generation failed after a broken translation: ' + ''.join(traceback.format_exception_only(type(e), e))[:500]
     py_fail = [c for c in cases if c.py_fail]
 
     # 4. classify
@@ -500,6 +506,8 @@ def run_check(prop, tier, seed):
         broken_things.append({'kind': 'theorem', 'file': pf, 'theorem': n, 'reason': why})
     if not ok_models:
         broken_things.append({'kind': 'model-build', 'reason': log_models[-1500:]})
+    if corr_error:
+        broken_things.append({'kind': 'correspondence-not-run', 'reason': corr_error[:1500]})
     if model_mismatch:
         broken_things.append({'kind': 'correspondence', 'reason': f'{len(model_mismatch)} cases where the implementation model M no longer reproduces the implementation',
                               'examples': [c.desc for c in model_mismatch[:3]]})
@@ -524,8 +532,8 @@ def run_check(prop, tier, seed):
                 if c.cid in sfs or c.py_fail:
                     if not any(finding_matches(e, c) for e in known):
                         violations.append(c)
-        except MachineryError as e:
-            broken_things.append({'kind': 'search-failed', 'reason': str(e)[:1500]})
+        except Exception as e:  # noqa -- MachineryError or a generator crash caused by the broken translation
+            broken_things.append({'kind': 'search-failed', 'reason': (type(e).__name__ + ': ' + str(e))[:1500]})
 
     replay_paths = []
     if violations:
